@@ -140,6 +140,14 @@ def check_bookkeeping(world):
                 ce = so.composite_envelope
                 if ce is None or CompositeEnvelope._containers.get(ce.uid) is not cont:
                     bad.append(f"{nm}: {world.kind(so)}{world.sid(so)} in a product space does not point back to this composite")
+        # every live member of a member envelope is registered exactly once (by identity)
+        for e in cont.envelopes:
+            for so in (e.fock, e.polarization):
+                if getattr(so, "measured", False) or getattr(e, "measured", False):
+                    continue
+                k = sum(1 for x in cont.state_objs if x is so)
+                if k != 1:
+                    bad.append(f"{nm}: {world.kind(so)}{world.sid(so)} of member envelope e{ix(world.envs, e)} is registered {k} times in the container's subsystem list")
         ids_env = [id(e) for e in cont.envelopes]
         if len(set(ids_env)) != len(ids_env):
             bad.append(f"{nm}: an envelope is listed twice")
